@@ -63,7 +63,7 @@ def run(rep, tier, seed, model_ok=True, effort=1):
     n = (500 if tier == "quick" else 30000) * effort
     rep.rule = ("documented legacy composites and part combinations x dates 2000..2099 x build ids x tags: render -> read back -> re-render on the "
                 "implementation, `bumpver test` (result strictly greater under PEP 440, for {pycalver} also as a plain string), chains of bumps, "
-                "engine dispatch consistency between incr_dispatch / _is_valid_version / config; `update` on projects whose files carry {version} and the derived {pep440_version} / {pep440_pycalver} form for the six mapped version patterns; compile, format, parse and `test` compared with the "
+                "engine dispatch consistency between incr_dispatch / _is_valid_version / config; `update` on projects whose files carry {version} and the derived {pep440_version} / {pep440_pycalver} form for the six mapped version patterns; config loader: glob entry + extra entry for one of its files, then a second project in the same process; compile, format, parse and `test` compared with the "
                 "Coq model; non-trivial = distinct (pattern, rendered version) that reads back")
     today = v2gen.ordinal(impl.PINNED_TODAY)
     comp_items, comp_meta, fmt_items, fmt_meta, parse_items, parse_meta, cli_items, cli_meta = [], [], [], [], [], [], [], []
